@@ -177,38 +177,32 @@ Definition map_retain (keep : list N) (delta : N) : M' (list (N * N * N)) :=
            when (negb (inb (ek e) keep)) (rt_erase c (fst x) (ek e))) l ;;;
   ret (map (fun x => elem3 (snd x)) l).
 
-(* DrainFilterInner::next over the remaining buckets *)
-Fixpoint df_next (take : list N) (delta : N) (l : list (bool * elem)) : M' (option elem * list (bool * elem)) :=
+(* DrainFilter: up to [fuel] calls of next() over the remaining buckets l.  Each visited element
+   is shown to the predicate (which adds delta to its value); an accepted one is removed and
+   yielded.  Returns what was yielded and the buckets not visited yet. *)
+Fixpoint df_run (take : list N) (delta : N) (l : list (bool * elem)) (fuel : nat) (acc : list elem)
+  : M' (list elem * list (bool * elem)) :=
   match l with
-  | [] => ret (None, [])
-  | x :: l =>
-      let e := snd x in
-      cb ;;;
-      when (negb (delta =? 0)) (set_value (fst x) (ek e) (ev e + delta)) ;;;
-      if inb (ek e) take then e' <- rt_remove c (fst x) (ek e) ;; ret (Some e', l)
-      else df_next take delta l
-  end.
-(* up to j calls of next(); returns what was yielded and the iterator's remaining buckets *)
-Fixpoint df_take (take : list N) (delta : N) (j : nat) (l : list (bool * elem)) (acc : list elem)
-  : M' (list elem * list (bool * elem) * bool) :=
-  match j with
-  | O => ret (acc, l, false)
-  | S j =>
-      r <- df_next take delta l ;;
-      match fst r with
-      | Some e => df_take take delta j (snd r) (acc ++ [e])
-      | None => ret (acc, [], true)
+  | [] => ret (acc, [])
+  | x :: l' =>
+      match fuel with
+      | O => ret (acc, l)
+      | S f =>
+          let e := snd x in
+          cb ;;;
+          when (negb (delta =? 0)) (set_value (fst x) (ek e) (ev e + delta)) ;;;
+          if inb (ek e) take then (e' <- rt_remove c (fst x) (ek e) ;; df_run take delta l' f (acc ++ [e']))
+          else df_run take delta l' (S f) acc
       end
   end.
 (* drain_filter(f) consumed for j items (None: to the end), then dropped or forgotten *)
 Definition map_drain_filter (take : list N) (delta : N) (j : option N) (forget : bool) : M' (list (N * N * N)) :=
   l <- rt_iter ;;
   let n := length l in
-  r <- df_take take delta (match j with Some j => N.to_nat j | None => S n end) l [] ;;
-  let '(acc, rest, _) := r in
+  r <- df_run take delta l (match j with Some j => N.to_nat j | None => S n end) [] ;;
   (if forget then ret tt
-   else r' <- df_take take delta (S n) rest [] ;; drop_elems (fst (fst r'))) ;;;
-  ret (map elem3 acc).
+   else r' <- df_run take delta (snd r) (S n) [] ;; drop_elems (fst r')) ;;;
+  ret (map elem3 (fst r)).
 
 Definition map_reserve (fallible : bool) (n : N) : M' bool := rt_reserve c fallible n.
 
@@ -272,7 +266,7 @@ Definition map_drop : M' unit :=
   setlo None ;;; setm hb_new.
 
 (* PartialEq::eq(self, other): other is read-only *)
-Definition map_eq (other : rt) : M' bool :=
+Definition map_equal (other : rt) : M' bool :=
   s <- get ;;
   if negb (rt_len (s_rt s) =? rt_len other) then ret false
   else
@@ -548,7 +542,7 @@ Definition step (w : world) (t : traced) : res world out :=
   | OEq a b =>
       match w_maps w !! b with
       | None => Fault FBadOp
-      | Some mb => rmap OutB (with_slot w a on perm (map_eq (m_rt mb)))
+      | Some mb => rmap OutB (with_slot w a on perm (map_equal (m_rt mb)))
       end
   | ODrop s =>
       match with_slot w s on perm map_drop with
